@@ -703,7 +703,9 @@ row('GRAPH.NODES', ['C18'], touches=['intvec'], clauses=[kept('intvec', 1, 1)] +
 _hp = 'top(S0.int, 0)'
 row('GRAPH.NODES*HISTORY', ['C18'], touches=['int', 'intvec'], clauses=[kept('int', 1, 0), kept('intvec', 1, 1)]
     + _filter_clauses('S0.int.len() >= 1 && 0 <= %s < S0.graph.n() && S0.intvec.len() >= 1' % _hp, 'S0.graph.live()[S0.graph.n() - 1 - %s]' % _hp)
-    + [('{C18,C10}unfired.intvec', 'S0.int.len() == 0 ==> S1.intvec == S0.intvec')])
+    + [('{C18,C10}unfired.intvec', 'S0.int.len() == 0 ==> S1.intvec == S0.intvec'),
+       # a depth at which there is no snapshot (negative, or at / beyond the number of snapshots) reads nothing: the filter stays where it is
+       ('fired.no-such-snapshot', '(S0.int.len() >= 1 && !(0 <= %s < S0.graph.n())) ==> S1.intvec == S0.intvec' % _hp)])
 row('GRAPH.NODE*GETSTATE', ['C18'], touches=['graph', 'int'], clauses=graph_top_only() + [kept('int', 1, 1),
     ('fired.graph.readonly', 'S1.graph.live() =~= S0.graph.live()')] + untouched_without_graph(['int']))
 row('GRAPH.NODE*HISTORY', ['C18'], touches=['graph', 'int'], clauses=buf_same('graph') + [kept('int', 2, 1),
